@@ -88,6 +88,19 @@ func c15(c *ctx) {
 		dup  string
 	}
 	var jobs []*job
+	if c.replay != "" {
+		// --replay: the witness' grammar text, read back by the independent reader
+		text, ok := witnessString(c.replay, "grammar")
+		if !ok {
+			die("this witness has no grammar text")
+		}
+		g, err := fromText(text)
+		if err != nil {
+			die("witness grammar cannot be read back: %v", err)
+		}
+		jobs = append(jobs, &job{id: 0, g: g, text: text, tags: []string{"replay"}})
+		n = 0
+	}
 	for i := 0; i < n; i++ {
 		g, tags := gram.Planted(r)
 		j := &job{id: i, g: g, tags: tags}
